@@ -98,6 +98,9 @@ COMBINATORS = {
     ("Option", "and_then"): ("Some", "None", None),
     ("Result", "map_or"): ("Ok", "default", None),
     ("Result", "is_ok_and"): ("Ok", False, None),
+    # lazily computed alternatives: the closure takes no payload and runs in the OTHER arm
+    ("Option", "or_else"): ("None", "self", None),
+    ("Option", "unwrap_or_else"): ("None", "payload", None),
 }
 DISCR = {"Some": 1, "None": 0, "Ok": 0, "Err": 1}
 
@@ -145,6 +148,76 @@ def _closure_path_of(js, blocks, op):
         if t["k"] == "call" and t["dest"]["l"] == pl["l"]:
             found.append(None)
     return found[0] if len(found) == 1 else None
+
+
+def signature(b):
+    return "|".join(l["ty"] for l in b["locals"][:b["arg_count"] + 1])
+
+
+def _module(path):
+    return path.rsplit("::", 1)[0] if "::" in path else ""
+
+
+def undo_renames(facts, baseline_paths, baseline_sig):
+    """A baseline function that is gone while exactly one new function with the same signature exists in the same module
+    (and no other gone function competes for it) was renamed: every occurrence of the new path in the facts - the body,
+    its closures, callee references - is rewritten to the baseline name, so that anchors, callee tests and finding keys
+    keep working.  Returns {new: old}."""
+    if not baseline_paths or not baseline_sig:
+        return {}
+    have = {b["path"]: b for b in facts["bodies"] if b["kind"] == "fn"}
+    base = set(baseline_paths)
+    gone = [p for p in base if p not in have and "::tests::" not in p]
+    fresh = [p for p in have if p not in base and "::tests::" not in p]
+    if not gone or not fresh:
+        return {}
+    callers = {}
+    for b in facts["bodies"]:
+        top = b.get("parent") or b["path"]
+        while "::{closure" in top:
+            top = top[:top.rindex("::{closure")]
+        for blk in b["blocks"]:
+            t = blk["term"]
+            if t["k"] == "call":
+                cp = _callee_of(t)
+                if cp:
+                    callers.setdefault(cp, set()).add(top)
+    ren = {}
+    for g in gone:
+        sig = baseline_sig.get(g)
+        cands = [f for f in fresh if _module(f) == _module(g) and signature(have[f]) == sig]
+        if len(cands) > 1:
+            # a helper extracted from the renamed function is called by new code only; the renamed function itself is
+            # still called from code that was there before
+            cands = [f for f in cands if any(c not in fresh for c in callers.get(f, ()))]
+        rivals = [g2 for g2 in gone if g2 != g and _module(g2) == _module(g) and baseline_sig.get(g2) == sig]
+        if len(cands) == 1 and not rivals:
+            ren[cands[0]] = g
+    if not ren:
+        return {}
+
+    def fix(sv):
+        for new, old in ren.items():
+            if sv == new:
+                return old
+            if sv.startswith(new + "::{closure"):
+                return old + sv[len(new):]
+        return sv
+
+    def walk(o):
+        if isinstance(o, dict):
+            for k, v in o.items():
+                if isinstance(v, str):
+                    if k in ("path", "resolved", "parent"):
+                        o[k] = fix(v)
+                else:
+                    walk(v)
+        elif isinstance(o, list):
+            for v in o:
+                walk(v)
+    for b in facts["bodies"]:
+        walk(b)
+    return ren
 
 
 def inline_crate(facts, baseline_paths, baseline_comb=None):
@@ -203,7 +276,8 @@ def inline_crate(facts, baseline_paths, baseline_comb=None):
                 cal = inlined(cpth) if cpth in by_path and cpth not in stack else None
                 a0 = t["args"][0]
                 pl0 = a0.get("move") or a0.get("copy")
-                if cal is not None and cal["arg_count"] == 2 and pl0 is not None and \
+                lazy = variant == "None"
+                if cal is not None and cal["arg_count"] == (1 if lazy else 2) and pl0 is not None and \
                         len(blocks) + len(cal["blocks"]) < MAX_TOTAL:
                     sp = t.get("span")
                     l_opt, l_d = len(locals_), len(locals_) + 1
@@ -212,7 +286,7 @@ def inline_crate(facts, baseline_paths, baseline_comb=None):
                     coff = len(locals_)
                     locals_.extend(cal["locals"])
                     for d in cal["debug"]:
-                        if d["place"]["l"] in (1, 2):
+                        if d["place"]["l"] in ((1,) if lazy else (1, 2)):
                             continue            # the closure itself (captures) and its parameter stay anonymous
                         nd = dict(d)
                         nd["place"] = _shift_place(d["place"], coff)
@@ -222,7 +296,7 @@ def inline_crate(facts, baseline_paths, baseline_comb=None):
                     land = entry + len(cal["blocks"])
                     b_none = land + 1
                     variants = [[0, "None"], [1, "Some"]] if comb[0] == "Option" else [[0, "Ok"], [1, "Err"]]
-                    pay_ty = cal["locals"][2]["ty"]
+                    pay_ty = cal["locals"][2]["ty"] if not lazy else cal["locals"][0]["ty"]
                     opt_pl = {"l": l_opt, "p": [], "ty": pl0.get("ty", "?")}
                     d_pl = {"l": l_d, "p": [], "ty": "isize"}
                     blocks[i] = {"stmts": list(blk["stmts"]) + [
@@ -232,12 +306,12 @@ def inline_crate(facts, baseline_paths, baseline_comb=None):
                         "term": {"k": "switch", "op": {"copy": d_pl}, "ty": "isize", "targets": [[DISCR[variant], b_some]],
                                  "otherwise": b_none, "span": sp}}
                     payload = {"l": l_opt, "p": [{"downcast": variant}, {"f": 0, "name": "0", "bty": pay_ty}], "ty": pay_ty}
-                    blocks.append({"stmts": [
-                        {"k": "assign", "place": {"l": coff + 1, "p": [], "ty": cal["locals"][1]["ty"]},
-                         "rv": {"k": "use", "op": t["args"][-1]}, "span": sp},
-                        {"k": "assign", "place": {"l": coff + 2, "p": [], "ty": pay_ty},
-                         "rv": {"k": "use", "op": {"move": payload}}, "span": sp}],
-                        "cleanup": False, "term": {"k": "goto", "target": entry, "span": sp}})
+                    pre_ = [{"k": "assign", "place": {"l": coff + 1, "p": [], "ty": cal["locals"][1]["ty"]},
+                             "rv": {"k": "use", "op": t["args"][-1]}, "span": sp}]
+                    if not lazy:
+                        pre_.append({"k": "assign", "place": {"l": coff + 2, "p": [], "ty": pay_ty},
+                                     "rv": {"k": "use", "op": {"move": payload}}, "span": sp})
+                    blocks.append({"stmts": pre_, "cleanup": False, "term": {"k": "goto", "target": entry, "span": sp}})
                     for cb in cal["blocks"]:
                         blocks.append(_shift_block(cb, coff, entry, land))
                     ret = {"move": {"l": coff, "p": [], "ty": cal["locals"][0]["ty"]}}
@@ -247,6 +321,11 @@ def inline_crate(facts, baseline_paths, baseline_comb=None):
                                    "term": {"k": "goto", "target": t["target"], "span": sp}})
                     if other == "default":
                         rv_none = {"k": "use", "op": t["args"][1]}
+                    elif other == "self":
+                        rv_none = {"k": "use", "op": {"move": opt_pl}}
+                    elif other == "payload":
+                        some_pl = {"l": l_opt, "p": [{"downcast": "Some"}, {"f": 0, "name": "0", "bty": pay_ty}], "ty": pay_ty}
+                        rv_none = {"k": "use", "op": {"move": some_pl}}
                     elif other == "None":
                         rv_none = {"k": "agg", "agg": "adt", "adt": "std::option::Option", "variant": "None", "fields": [], "ops": []}
                     else:
